@@ -364,7 +364,7 @@ func validateFileContracts(ms *MidState, txn types.Transaction, ts V1Transaction
 		}
 		fc := fce.FileContract
 		windowID, ok := ms.storageProofWindowID(ts, sp.ParentID)
-		if !ok {
+		if !ok || fc.WindowStart > ms.base.childHeight() {
 			return fmt.Errorf("storage proof %v cannot be submitted until after window start (%v)", i, fc.WindowStart)
 		}
 		leafIndex := ms.base.StorageProofLeafIndex(fc.Filesize, windowID, sp.ParentID)
